@@ -96,18 +96,25 @@ Section Domain.
   Definition all_same (l : list bytes) : bool :=
     match l with [] => true | x :: r => forallb (bytes_eqb x) r end.
 
-  (* requested extras are normalised names; every comparison with extra names the same extra *)
+  (* the names the marker compares extra with that ARE requested *)
+  Definition requested_lits (extras : list bytes) (m : mtree) : list bytes :=
+    filter (fun l => existsb (bytes_eqb l) extras) (extra_lits m).
+
+  (* requested extras are normalised names; at most one of the names the marker compares extra
+     with is requested (Go looks every name up in the set of requested extras, pip evaluates
+     the marker once per requested extra: the two differ only when two different names of the
+     marker are both requested) *)
   Definition in_domain (extras : list bytes) (m : mtree) : bool :=
     forallb dom_atom (atoms m) &&
-    all_same (extra_lits m) &&
+    all_same (requested_lits extras m) &&
     forallb (fun e => bytes_eqb (canonicalize_name e) e) extras.
 
   (* the class of the first atom outside, else 3 when a requested extra is not a normalised
-     name, else 7 when the marker compares extra with two different names, else 0 *)
+     name, else 7 when two different names the marker compares extra with are both requested, else 0 *)
   Definition domain_class (extras : list bytes) (m : mtree) : N :=
     let c := first_class (atoms m) in
     if negb (c =? 0) then c
     else if negb (forallb (fun e => bytes_eqb (canonicalize_name e) e) extras) then 3
-    else if negb (all_same (extra_lits m)) then 7
+    else if negb (all_same (requested_lits extras m)) then 7
     else 0.
 End Domain.
